@@ -398,6 +398,60 @@ fn probe(args: &[String]) {
   }
 }
 
+/// `c08 gridpts <corpus-entry.jsonl> [integrator]`: the grid of `grids()` (4x4, +-0.8 span on the signal axis, 0.61 of that on the
+/// idler axis) for the recorded setup: the three rates and efficiencies, and per grid point the three intensities plus the
+/// scalar dump of the setup and of its exchanged twin (for the branch analysis of the generated singles integrand)
+fn gridpts(args: &[String]) {
+  let text = std::fs::read_to_string(&args[1]).unwrap_or_default();
+  for line in text.lines() {
+    let e: Value = match serde_json::from_str(line) {
+      Ok(v) => v,
+      Err(_) => continue,
+    };
+    let cfg = e["config"].as_str().unwrap_or("").to_string();
+    let wi_um = e["idler_waist_um"].as_f64().unwrap_or(100.);
+    let z0 = e["setup"]["waist_positions_um"].as_array().and_then(|a| Some((a.first()?.as_f64()?, a.get(1)?.as_f64()?)));
+    let integ = parse_integ(args.get(2).map(|s| s.as_str()).unwrap_or(e["integrator"].as_str().unwrap_or("simpson200")));
+    let id = e["id"].as_str().unwrap_or("?").to_string();
+    let spdc = match build_from(cfg, wi_um, z0) {
+      Ok(s) => s,
+      _ => {
+        emit(json!({"kind":"corpus_fail","id":id}));
+        continue;
+      }
+    };
+    let res = 4;
+    let span = span_of(&spdc);
+    let (s0, i0) = (hz(spdc.signal.frequency()), hz(spdc.idler.frequency()));
+    let d = 0.8 * span;
+    let di = 0.61 * d;
+    let g = FrequencySpace::new((w(s0 - d), w(s0 + d), res), (w(i0 - di), w(i0 + di), res));
+    let sp = spdc.clone();
+    if let Ok(ef) = guarded(move || sp.efficiencies(g, integ)) {
+      emit(json!({"kind":"grid","integrator":integ_json(&integ),"mismatch":fx(mismatch(&spdc)),"res":res,
+        "c":fx(ef.coincidences.value_unsafe),"rs":fx(ef.signal_singles.value_unsafe),"ri":fx(ef.idler_singles.value_unsafe),
+        "symmetric":fx(ef.symmetric),"signal":fx(ef.signal),"idler":fx(ef.idler),"setup":e["setup"].clone()}));
+    }
+    if args.get(3).map(|s| s.as_str()) == Some("rates") {
+      continue;
+    }
+    let (a, b) = (spdc.clone(), spdc.clone());
+    let js = match guarded(move || (JointSpectrum::new(a, integ), JointSpectrum::new(b.with_swapped_signal_idler(), integ))) {
+      Ok(v) => v,
+      Err(_) => continue,
+    };
+    for (k, (ws_, wi_)) in g.as_steps().into_iter().enumerate() {
+      let (os, oi) = (hz(ws_), hz(wi_));
+      if let Ok((c, ss, si, alpha)) = triple(&spdc, &js.0, &js.1, os, oi) {
+        let (pa, pb) = (spdc.clone(), spdc.clone().with_swapped_signal_idler());
+        let prm = guarded(move || (crate::c06::dump_params(&pa, w(os), w(oi), &[0.0]), crate::c06::dump_params(&pb, w(oi), w(os), &[0.0]))).ok();
+        emit(json!({"kind":"gridpt","id":id,"k":k,"integrator":integ_json(&integ),"ws":fx(os),"wi":fx(oi),"alpha":fx(alpha),
+          "jsi":fx(c),"singles_s":fx(ss),"singles_i":fx(si),"direct":prm.as_ref().map(|p| p.0.clone()),"swapped":prm.as_ref().map(|p| p.1.clone())}));
+      }
+    }
+  }
+}
+
 fn parse_integ(s: &str) -> Integrator {
   if let Some(d) = s.strip_prefix("simpson") {
     Integrator::Simpson { divs: d.parse().unwrap_or(200) }
@@ -485,6 +539,10 @@ pub fn run(args: &[String]) {
   }
   if args.first().map(|s| s.as_str()) == Some("corpus") {
     corpus(args);
+    return;
+  }
+  if args.first().map(|s| s.as_str()) == Some("gridpts") {
+    gridpts(args);
     return;
   }
   if args.first().map(|s| s.as_str()) == Some("eff") {
